@@ -10,7 +10,8 @@ PROPERTY = "C15"
 LEVEL = "exploration"
 RULE = (
     "one evaluation = one header block (or one message with body) fed to a fresh receiving H3Connection through a literal-only "
-    "QPACK field section; names/values are all strings over the 13-byte boundary alphabet up to the stated length plus "
+    "QPACK field section, or through dynamic-table references whose encoder-stream instructions arrive after the block (the stream is "
+    "blocked and resumed) or before it; names/values are all strings over the 13-byte boundary alphabet up to the stated length plus "
     "Hypothesis-drawn longer ones; pseudo-header cases are all sequences up to the stated length over "
     "{:method,:scheme,:authority,:path,:status,:protocol,:unknown,regular} in 4 contexts (request, response, trailers, push promise); "
     "content-length cases are spellings x DATA-frame lists x chunkings x trailers. Oracle: independent validator ok(block, context); "
@@ -21,7 +22,7 @@ RULE = (
 ASSUMPTIONS = [
     "blocks that are well-formed by the statement but refused for additional reasons (missing :authority, empty :path, transfer-encoding, empty name) are accepted either way",
     "content-length values that are not 1*DIGIT are accepted either way; several content-length fields are accepted either way",
-    "the literal QPACK encoder of vlib/h3bench.py is trusted (its output is decoded by pylsqpack, not by the harness)",
+    "the literal and dynamic-table QPACK encoders of vlib/h3bench.py are trusted (their output is decoded by pylsqpack, not by the harness)",
 ]
 
 A = [0x00, 0x09, 0x0A, 0x0D, 0x20, 0x21, 0x3A, 0x41, 0x5A, 0x61, 0x7F, 0x80, 0xFF]
@@ -96,13 +97,22 @@ BASE = {
 }
 
 
-def run_block(headers, context):
-    """Feed one block in the given context; returns (delivered_headers or None, closed)."""
+MODES = ("literal", "dynamic-blocked", "dynamic-ready")
+
+
+def run_block(headers, context, mode="literal"):
+    """Feed one block in the given context; returns (delivered_headers or None, closed).
+    mode: literal field lines | every field a dynamic-table reference, the field section arriving before (the stream is blocked and resumed later)
+    or after the encoder stream instructions it depends on"""
     from aioquic.h3.connection import FrameType
     from aioquic.h3 import events as E
     from vlib import h3bench as B
 
-    fs = B.qpack_literal(headers)
+    enc = None
+    if mode == "literal":
+        fs = B.qpack_literal(headers)
+    else:
+        enc, fs = B.qpack_dynamic(headers)
     if context == "request":
         plan = [(0, B.frame(FrameType.HEADERS, fs), False)]
         is_client = False
@@ -118,6 +128,12 @@ def run_block(headers, context):
     else:
         plan = [(0, B.frame(FrameType.PUSH_PROMISE, B.varint(0) + fs), False)]
         is_client = True
+    if enc is not None:
+        item = (7 if is_client else 6, b"\x02" + enc, False)
+        if mode == "dynamic-blocked":
+            plan.append(item)
+        else:
+            plan.insert(len(plan) - 1, item)
     evs, q, _ = B.deliver(plan, is_client)
     got = None
     hdr_events = [e for e in evs if isinstance(e, (E.HeadersReceived, E.PushPromiseReceived))]
@@ -128,20 +144,27 @@ def run_block(headers, context):
     return got, q.closed
 
 
-def judge(ctx, headers, context, nontrivial, cls):
+def judge(ctx, headers, context, nontrivial, cls, modes=("literal",)):
+    for mode in modes:
+        judge_mode(ctx, headers, context, nontrivial, cls, mode)
+
+
+def judge_mode(ctx, headers, context, nontrivial, cls, mode):
     if not headers:
         # an empty field section is refused by the QPACK decoder (pylsqpack) before any
         # HTTP validation can run: not a "message" in the sense of the statement
         ctx.cls("empty-block-out-of-domain")
         return
-    got, closed = run_block(headers, context)
-    if got is None and closed is not None and closed[0] == 0x200:
+    if mode != "literal" and sum(len(n) + len(v) + 32 for n, v in headers) > 4096:
+        return  # does not fit the dynamic table
+    got, closed = run_block(headers, context, mode)
+    if got is None and closed is not None and closed[0] in (0x200, 0x201):
         # refused by the QPACK decoder (pylsqpack: e.g. empty field name): never became a message
         ctx.cls("qpack-decoder-refused(out of domain)")
         return
     good = block_ok(headers, context)
-    case = {"kind": "block", "context": context, "headers": headers}
-    ctx.case((context, tuple(headers)), nontrivial=nontrivial, classes=[cls, "%s:%s" % (context, "ok" if good else "bad")])
+    case = {"kind": "block", "context": context, "headers": headers, "mode": mode}
+    ctx.case((context, tuple(headers), mode), nontrivial=nontrivial, classes=[cls, "%s:%s" % (context, "ok" if good else "bad"), "qpack:" + mode])
     if got is not None:
         if not block_ok(got, context):
             ctx.violation("malformed-block-delivered-" + context, "application received %r in context %s" % (got, context), case)
@@ -182,18 +205,19 @@ def names_values(ctx, L, part, nparts):
             for context in ("request", "response", "trailers", "push"):
                 if context != "request" and ln > 2 and (i // nparts) % 4:
                     continue
-                judge(ctx, BASE[context] + [(s, b"v")], context, edge(s), "name-len%d" % ln)
-                judge(ctx, BASE[context] + [(b"x", s)], context, edge(s) or s[0] in (0x20, 9) or s[-1] in (0x20, 9), "value-len%d" % ln)
+                modes = MODES if ln <= 2 else ("literal", MODES[1 + i % 2]) if (i // nparts) % 3 == 0 else ("literal",)
+                judge(ctx, BASE[context] + [(s, b"v")], context, edge(s), "name-len%d" % ln, modes)
+                judge(ctx, BASE[context] + [(b"x", s)], context, edge(s) or s[0] in (0x20, 9) or s[-1] in (0x20, 9), "value-len%d" % ln, modes)
             if ctx.want_sample():
                 ctx.sample({"context": "request", "headers": BASE["request"] + [(s, b"v")]})
     # fixed extras: empty name / empty value / upper-case inside long names
     for context in ("request", "response", "trailers"):
-        judge(ctx, BASE[context] + [(b"x", b"")], context, True, "value-empty")
-        judge(ctx, BASE[context] + [(b"", b"v")], context, True, "name-empty")
+        judge(ctx, BASE[context] + [(b"x", b"")], context, True, "value-empty", MODES)
+        judge(ctx, BASE[context] + [(b"", b"v")], context, True, "name-empty", MODES)
         for nm in (b"content-Type", b"x-\x7f", b"x y", b"x:y", b"x-\xc3\xa9", b"accept", b"Z", b"[", b"@", b"`", b"~"):
-            judge(ctx, BASE[context] + [(nm, b"v")], context, True, "name-fixed")
+            judge(ctx, BASE[context] + [(nm, b"v")], context, True, "name-fixed", MODES)
         for v in (b"a b", b"a\tb", b" a", b"a ", b"\ta", b"a\t", b"a\x00b", b"a\rb", b"a\nb", b"\x7f", b"\x80\xff", b" "):
-            judge(ctx, BASE[context] + [(b"x", v)], context, True, "value-fixed")
+            judge(ctx, BASE[context] + [(b"x", v)], context, True, "value-fixed", MODES)
 
 
 PSEUDO = [
@@ -237,7 +261,7 @@ def pseudo_sequences(ctx, L, part, nparts):
             if i % nparts != part:
                 continue
             for context in ("request", "response", "trailers", "push"):
-                judge(ctx, list(seq), context, rules_broken(seq, context) == 1, "pseudo-len%d" % ln)
+                judge(ctx, list(seq), context, rules_broken(seq, context) == 1, "pseudo-len%d" % ln, MODES if ln <= 3 else ("literal", MODES[1 + i % 2]))
             if ctx.want_sample():
                 ctx.sample({"context": "response", "headers": list(seq)})
 
@@ -323,13 +347,13 @@ def random_blocks(ctx, examples, shard):
         st.tuples(st.sampled_from([b"some value", b"x"]), st.integers(0, 10), byte).map(lambda t: t[0][: t[1]] + bytes([t[2]]) + t[0][t[1] :]),
     )
     field = st.one_of(st.tuples(name, value), st.sampled_from(PSEUDO))
-    strat = st.tuples(st.sampled_from(["request", "response", "trailers", "push"]), st.booleans(), st.lists(field, min_size=0, max_size=6))
+    strat = st.tuples(st.sampled_from(["request", "response", "trailers", "push"]), st.booleans(), st.lists(field, min_size=0, max_size=6), st.sampled_from(MODES))
 
     def body(ctx, v):
-        context, with_base, fields = v
+        context, with_base, fields, mode = v
         headers = (BASE[context] if with_base else []) + [(bytes(n), bytes(val)) for n, val in fields]
         nt = any(edge(n) or edge(val) for n, val in fields)
-        judge(ctx, headers, context, nt, "random-block")
+        judge(ctx, headers, context, nt, "random-block", (mode,))
         if ctx.want_sample():
             ctx.sample({"context": context, "headers": headers})
 
@@ -339,7 +363,7 @@ def random_blocks(ctx, examples, shard):
 def replay(ctx, case):
     if case["kind"] == "block":
         headers = [(bytes(n), bytes(v)) for n, v in case["headers"]]
-        judge(ctx, headers, case["context"], True, "replay")
+        judge(ctx, headers, case["context"], True, "replay", (case.get("mode", "literal"),))
     else:
         # re-run the whole content-length family (cheap) -- the case names the failing member
         content_length_cases(ctx, 0, 1, True)
